@@ -468,7 +468,7 @@ func (t *ArrayTupleOfValueIterator) NextValue() (Value, Value) {
 
 func (t *ArrayTupleOfValueIterator) Elements() iter.Seq[Value] {
 	return func(yield func(Value) bool) {
-		for ; t.Index >= t.ArrayTuple.Length(); t.Index++ {
+		for ; t.Index < t.ArrayTuple.Length(); t.Index++ {
 			if !yield((*t.ArrayTuple)[t.Index]) {
 				return
 			}
